@@ -68,6 +68,89 @@ def cross_thread(kind):
     return []
 
 
+def reentrant(kind):
+    """two handlers on one watch; the one served first removes (itself and) the other from inside its callback:
+    once that call has returned the other handler must not be invoked for the event being dispatched nor for queued ones"""
+    obs = BaseObserver(NullEmitter, timeout=0.05)
+    log = []
+    state = {"removed_at": None}
+
+    class Hd(FileSystemEventHandler):
+        def __init__(self, name):
+            self.name = name
+
+        def dispatch(self, ev):
+            log.append((self.name, state["removed_at"] is not None))
+            if state["removed_at"] is None:
+                other = hs[1] if self is hs[0] else hs[0]
+                if kind == "unschedule":
+                    obs.unschedule(w)
+                elif kind == "remove":
+                    obs.remove_handler_for_watch(other, w)
+                elif kind == "unschedule_all":
+                    obs.unschedule_all()
+                else:
+                    obs.stop()
+                state["removed_at"] = len(log)
+                state["remover"] = self.name
+    hs = [Hd("h1"), Hd("h2")]
+    w = obs.schedule(hs[0], "/w")
+    obs.add_handler_for_watch(hs[1], w)
+    for i in range(3):
+        obs.event_queue.put((FileCreatedEvent(f"/w/f{i}"), w))
+    for _ in range(3):
+        if obs.event_queue.empty():
+            break
+        obs.dispatch_events(obs.event_queue)
+    out = []
+    late = [n for n, after in log if after and n != state.get("remover")]
+    if late:
+        out.append(f"handler {late[0]} was invoked after {kind}() - called by {state.get('remover')} from inside its callback - had returned (calls: {log})")
+    if kind != "remove":
+        late_self = [n for n, after in log if after and n == state.get("remover")]
+        if late_self:
+            out.append(f"the handler that called {kind}() on its own observer was invoked again afterwards (calls: {log})")
+    return out
+
+
+def second_stop_returns_early():
+    """the dispatcher is inside a callback (holding the observer lock); stop() #1 waits for the lock; stop() #2 must not
+    return before the removal has happened - after it returned no handler may be invoked"""
+    obs = BaseObserver(NullEmitter, timeout=0.05)
+    t = {"b_returned": None, "late": []}
+    in_cb, b_done = threading.Event(), threading.Event()
+
+    class Hd(FileSystemEventHandler):
+        def dispatch(self, ev):
+            if not in_cb.is_set():
+                in_cb.set()
+                b_done.wait(0.6)
+            elif t["b_returned"] is not None:
+                t["late"].append(time.monotonic() - t["b_returned"])
+    h1, h2 = Hd(), Hd()
+    w = obs.schedule(h1, "/w")
+    obs.add_handler_for_watch(h2, w)
+    obs.event_queue.put((FileCreatedEvent("/w/f"), w))
+    d = threading.Thread(target=lambda: obs.dispatch_events(obs.event_queue))
+    d.start()
+    in_cb.wait(2)
+    a = threading.Thread(target=obs.stop)
+    a.start()
+    time.sleep(0.1)
+
+    def second():
+        obs.stop()
+        t["b_returned"] = time.monotonic()
+        b_done.set()
+    b = threading.Thread(target=second)
+    b.start()
+    for th in (d, a, b):
+        th.join(5)
+    if t["late"]:
+        return [f"a second stop() returned while the first was still waiting for the observer lock, and a handler was invoked {t['late'][0]:.3f}s after it had returned"]
+    return []
+
+
 def slow_emitter(kind):
     gate = {"returned": None}
 
@@ -104,7 +187,7 @@ def slow_emitter(kind):
 def main():
     if REPLAY is not None:
         c = REPLAY
-        pr = cross_thread(c["op"]) if c["kind"] == "cross" else slow_emitter(c["op"])
+        pr = cross_thread(c["op"]) if c["kind"] == "cross" else reentrant(c["op"]) if c["kind"] == "reentrant" else second_stop_returns_early() if c["kind"] == "second-stop" else slow_emitter(c["op"])
         replay_result(bool(pr), pr[:3])
     bat = Battery({"cross-thread removal": ["unschedule", "remove", "unschedule_all", "stop"], "park point": "right after the dispatcher's membership re-check", "slow emitter": ["unschedule", "unschedule_all", "stop"]})
     for kind in ("unschedule", "remove", "unschedule_all", "stop"):
@@ -112,6 +195,15 @@ def main():
         pr = cross_thread(kind)
         if pr:
             bat.fail("C05.callback-after-removal", pr[0], {"kind": "cross", "op": kind}, "BaseObserver.dispatch_events")
+    for kind in ("unschedule", "remove", "unschedule_all", "stop"):
+        bat.case(("reentrant", kind))
+        pr = reentrant(kind)
+        if pr:
+            bat.fail("C05.callback-after-reentrant-removal", pr[0], {"kind": "reentrant", "op": kind}, "BaseObserver.dispatch_events")
+    bat.case("second-stop")
+    pr = second_stop_returns_early()
+    if pr:
+        bat.fail("C05.second-stop-returns-before-removal", pr[0], {"kind": "second-stop", "op": "stop"}, "BaseThread.stop")
     for kind in ("unschedule", "unschedule_all", "stop"):
         bat.case(("slow", kind))
         pr = slow_emitter(kind)
